@@ -100,6 +100,7 @@ def run_case(case: dict) -> CaseResult:
     expected: list = []
     marks: list = []
     invalid: list = []
+    classes_extra: set = set()
 
     def then(sess: Session):
         conn = sess.conn
@@ -126,6 +127,16 @@ def run_case(case: dict) -> CaseResult:
                 conn.send_messages(msgs)
             marks.append((tr.n_writes - n0, len(msgs)))
             expected.extend((idof[type(m)], m.SerializeToString()) for m in msgs)
+            if case.get("resend") and any(f.name == "key" for f in type(msgs[0]).DESCRIPTOR.fields):
+                # the caller keeps its request objects: changes one in place and sends the very same tuple again
+                # (dimming step by step) -- what is written is what the objects hold NOW
+                classes_extra.add("same_objects_resent")
+                for k in range(int(case["resend"])):
+                    msgs[0].key = (msgs[0].key + 1 + k) & 0xFFFFFFFF
+                    n0 = tr.n_writes
+                    conn.send_messages(msgs)
+                    marks.append((tr.n_writes - n0, len(msgs)))
+                    expected.extend((idof[type(m)], m.SerializeToString()) for m in msgs)
         env.log("batches_done")
         env.spawn("final", sess.cli.disconnect(force=True))
 
@@ -154,7 +165,7 @@ def run_case(case: dict) -> CaseResult:
         res.violations.append(Violation(ID, "c02:api:frames-differ", f"frame {k}: device decoded {[(t, p.hex()[:16]) for t, p in got[k:k + 2]]}, expected {[(t, p.hex()[:16]) for t, p in expected[k:k + 2]]} ({len(got)} vs {len(expected)} frames)"))
     if any(e["kind"] == "invalid_batch_wrote" for e in env.trace) and not res.violations:
         res.violations.append(Violation(ID, "c02:api:refused-batch-wrote", "a batch with a member that has no wire type put bytes on the wire"))
-    res.classes = ["api"] + (["noise"] if noise else ["plain"]) + (["refused_batch"] if invalid else []) + (["batch_ge_2"] if any(nm > 1 for _, nm in marks) else [])
+    res.classes = ["api"] + (["noise"] if noise else ["plain"]) + (["refused_batch"] if invalid else []) + sorted(classes_extra) + (["batch_ge_2"] if any(nm > 1 for _, nm in marks) else [])
     if noise and len(marks) >= 3:
         res.classes.append("noise_writes_ge_3")
     res.nontrivial = any(nm > 1 for _, nm in marks) or len(marks) >= 3
@@ -178,7 +189,7 @@ def _case(draw, tier):
         batches.append(batch)
     if draw(st.integers(0, 5)) == 2:
         return {"mode": "api", "early": True, "login": draw(st.booleans()), "noise": draw(st.booleans()), "batches": [[b for b in bt if b[0] in names_ok] or [[classes[0].__name__, {}]] for bt in batches]}
-    return {"mode": "api", "noise": draw(st.booleans()), "single_api": draw(st.booleans()), "batches": batches}
+    return {"mode": "api", "noise": draw(st.booleans()), "single_api": draw(st.booleans()), "batches": batches, **({"resend": draw(st.integers(1, 3))} if draw(st.integers(0, 3)) == 0 else {})}
 
 
 def strategy(tier):
@@ -193,6 +204,8 @@ def enumerated(tier):
         yield {"mode": "api", "noise": noise, "single_api": True, "batches": [[[n, {}]] for n in names[:12]]}
         for lo in range(0, len(names), 8):
             yield {"mode": "api", "early": True, "noise": noise, "batches": [[[n, {}] for n in names[lo:lo + 2]], [[n, {}]] if False else [[n, {}] for n in names[lo + 2:lo + 8]] or [[names[0], {}]]]}
+        keyed = [c.__name__ for c in client_classes() if any(f.name == "key" for f in c.DESCRIPTOR.fields)]
+        yield {"mode": "api", "noise": noise, "resend": 2, "batches": [[[n, {"key": 5}]] for n in keyed[:6]] + [[[keyed[0], {"key": 1}], [keyed[1], {"key": 2}]]]}
         for pos in (0, 1, 2):
             bad = [[n, {}] for n in names[:2]]
             bad.insert(pos, ["BluetoothServiceData", {}])
